@@ -193,7 +193,7 @@ pub fn bundle(a: &RawI, salt: usize) -> String {
     parts.push(format!("c_to_triu A {}", out_raw(tu.as_ref().map(|t| Some(RawI::of_i(t))))));
     // select_rows, two masks
     for k in 0..2 {
-        let keep: Vec<bool> = (0..m).map(|i| ((salt >> (i + 3 * k)) & 1 == 1) ^ (k == 1 && i % 2 == 0)).collect();
+        let keep: Vec<bool> = (0..m).map(|i| ((salt >> ((i + 3 * k) % 16)) & 1 == 1) ^ (k == 1 && i % 2 == 0)).collect();
         let r = guarded(|| ai.select_rows(&keep));
         parts.push(format!("c_select_rows A {} {}", cblist(&keep), out_raw(r.map(|t| Some(RawI::of_i(&t))))));
     }
@@ -203,8 +203,11 @@ pub fn bundle(a: &RawI, salt: usize) -> String {
         parts.push(format!("c_select_rows A {} {}", cblist(&keep), out_raw(r.map(|t| Some(RawI::of_i(&t))))));
     }
     // get_entry everywhere
+    // (on large matrices: about 40 positions spread over the grid)
+    let gstep = if m * n > 100 { (m * n / 40) | 1 } else { 1 };
     for i in 0..m {
         for j in 0..n {
+            if (i * n + j) % gstep != 0 { continue; }
             let g = guarded(|| ai.get_entry((i, j)));
             let o = match g { None => "Panicked".to_string(), Some(None) => "(Out None)".into(), Some(Some(v)) => format!("(Out (Some {}))", cz(v)) };
             parts.push(format!("c_get_entry A {} {} {}", cn(i), cn(j), o));
@@ -241,7 +244,9 @@ pub fn bundle(a: &RawI, salt: usize) -> String {
         }
     }
     // index_to_coord for every stored index and one past the end
+    let istep = if ai.nnz() > 100 { ai.nnz() / 30 } else { 1 };
     for idx in 0..=ai.nnz() {
+        if idx % istep != 0 && idx + 2 <= ai.nnz() { continue; }
         let r = guarded(|| ai.index_to_coord(idx));
         let o = match r { None => "Panicked".to_string(), Some((i, j)) => format!("(Out ({}, {})%N)", i, j) };
         parts.push(format!("c_index_to_coord A {} {}", cn(idx), o));
@@ -429,7 +434,9 @@ pub fn raw_case(a: &RawI) -> String {
             Some(b) => parts.push(format!("c_is_triu A {}", b)),
             None => parts.push("1%N".into()),
         }
+        let istep = if a.rowval.len() > 100 { a.rowval.len() / 30 } else { 1 };
         for idx in 0..=a.rowval.len() {
+            if idx % istep != 0 && idx + 2 <= a.rowval.len() { continue; }
             let r = guarded(|| ai.index_to_coord(idx));
             let o = match r { None => "Panicked".to_string(), Some((i, j)) => format!("(Out ({}, {})%N)", i, j) };
             parts.push(format!("c_raw_index_to_coord A {} {}", cn(idx), o));
@@ -463,6 +470,48 @@ fn random_raw(rng: &mut Rng, m: usize, n: usize, dens: usize, stored_zero: bool)
         }
     }
     RawI::from_grid(&g, m, n)
+}
+
+/// Large canonical matrix: the columns listed in `long` hold 33..=100 entries (capped by m),
+/// the others 0..=3; small integer values, one stored value in eight is an explicit zero.
+fn big_canon(rng: &mut Rng, m: usize, n: usize, long: &[usize]) -> RawI {
+    let mut g = vec![vec![None; n]; m];
+    for j in 0..n {
+        let k = if long.contains(&j) { (33 + rng.below(68)).min(m) } else { rng.below(4).min(m) };
+        let mut rows: Vec<usize> = (0..m).collect();
+        rng.shuffle(&mut rows);
+        for &i in rows.iter().take(k) {
+            g[i][j] = Some(if rng.chance(1, 8) { 0 } else { let v = rng.range(-4, 4); if v == 0 { 3 } else { v } });
+        }
+    }
+    RawI::from_grid(&g, m, n)
+}
+/// The same matrix with its columns stored in another order: 0 presorted, 1 reversed,
+/// 2 shuffled, 3 shuffled with 3..=10 duplicated positions per non-empty column
+fn reorder_cols(rng: &mut Rng, a: &RawI, how: usize) -> RawI {
+    let mut colptr = vec![0];
+    let (mut rv, mut nz) = (vec![], vec![]);
+    for j in 0..a.n {
+        let mut es: Vec<(usize, i64)> = (a.colptr[j]..a.colptr[j + 1]).map(|p| (a.rowval[p], a.nzval[p])).collect();
+        match how {
+            0 => {}
+            1 => es.reverse(),
+            2 => rng.shuffle(&mut es),
+            _ => {
+                if !es.is_empty() { for _ in 0..(3 + rng.below(8)) { let e = *rng.pick(&es); es.push((e.0, rng.range(-3, 3))); } }
+                rng.shuffle(&mut es);
+            }
+        }
+        for e in es { rv.push(e.0); nz.push(e.1); }
+        colptr.push(rv.len());
+    }
+    RawI { m: a.m, n: a.n, colptr, rowval: rv, nzval: nz }
+}
+fn transpose_raw(a: &RawI) -> RawI {
+    let d = a.dense();
+    // keep explicit zeros out: the transposes only need the shape (few rows, many columns)
+    let g: Vec<Vec<Option<i64>>> = (0..a.n).map(|j| (0..a.m).map(|i| if d[i][j] != 0 { Some(d[i][j]) } else { None }).collect()).collect();
+    RawI::from_grid(&g, a.n, a.m)
 }
 
 pub struct Stats {
@@ -772,6 +821,68 @@ pub fn generate(sink: &mut CaseSink, seed: u64, thorough: bool) -> Stats {
                         }
                     }
                 }
+            }
+        }
+    }
+    // 5d. large shapes: size thresholds inside an operation (in-place vs buffered sort, unrolled
+    //     loops, ...) are invisible on the <= 5x5 lattices.  40..=120 rows x 2..=6 columns with
+    //     several long columns (33..=100 entries) in a row, their transposes, squares of order
+    //     40..=60 with a run of long columns; every single-matrix operation (bundle), the raw
+    //     encodings of the same matrix with presorted / reversed / shuffled / shuffled+duplicated
+    //     columns (canonicalize = sort_indices + deduplicate, check_format, is_triu,
+    //     index_to_coord), and concatenations of large blocks.  Small integers: exact.
+    {
+        let reps = if thorough { 6 } else { 1 };
+        for _ in 0..reps {
+            let mut bases: Vec<(RawI, &str)> = vec![];
+            for k in 0..5 {
+                let (m, n) = (40 + rng.below(81), 2 + rng.below(5));
+                // a run of at least two consecutive long columns (all of them every other time)
+                let first = if k % 2 == 0 { 0 } else { rng.below(n - 1) };
+                let long: Vec<usize> = if k % 2 == 0 { (0..n).collect() } else { (first..n.min(first + 2 + rng.below(3))).collect() };
+                bases.push((big_canon(&mut rng, m, n, &long), "tall"));
+            }
+            for _ in 0..3 {
+                let (m, n) = (40 + rng.below(81), 2 + rng.below(5));
+                let long: Vec<usize> = (0..n).collect();
+                bases.push((transpose_raw(&big_canon(&mut rng, m, n, &long)), "wide"));
+            }
+            for _ in 0..3 {
+                let n = 40 + rng.below(21);
+                let first = rng.below(n - 6);
+                let long: Vec<usize> = (first..first + 2 + rng.below(4)).collect();
+                bases.push((big_canon(&mut rng, n, n, &long), "square"));
+            }
+            for (a, kind) in bases.iter() {
+                let salt = rng.below(1 << 16);
+                sink.case("bundle", json!({"A": a.json(), "salt": salt}), bundle(a, salt), &["large"]);
+                bump(&format!("large_bundle_{}", kind));
+                if *kind != "wide" {
+                    for how in 0..4 {
+                        let r = reorder_cols(&mut rng, a, how);
+                        sink.case("raw", json!({"A": r.json()}), raw_case(&r), &["large"]);
+                        bump(["large_raw_presorted", "large_raw_reversed", "large_raw_shuffled", "large_raw_shuffled_dups"][how]);
+                    }
+                }
+            }
+            // concatenations of large blocks: pairs (hcat / vcat / blockdiag) and 2 x 2 grids
+            for k in 0..4 {
+                let (m, n) = (40 + rng.below(61), 2 + rng.below(5));
+                let a = big_canon(&mut rng, m, n, &[0, 1]);
+                let (n2, m2) = (2 + rng.below(4), 40 + rng.below(41));
+                let b = if k % 2 == 0 { big_canon(&mut rng, m, n2, &[0, 1]) } else { big_canon(&mut rng, m2, n, &[0, 1]) };
+                let pair = vec![a, b];
+                sink.case("concat", json!({"blocks": pair.iter().map(|r| r.json()).collect::<Vec<_>>(), "salt": k}), concat_case(&pair, k), &["large"]);
+                bump("large_concat_pair");
+            }
+            for _ in 0..3 {
+                let (h1, h2, w1, w2) = (40 + rng.below(41), 33 + rng.below(30), 2 + rng.below(3), 2 + rng.below(3));
+                let rows = vec![
+                    vec![big_canon(&mut rng, h1, w1, &[0, 1]), big_canon(&mut rng, h1, w2, &[1])],
+                    vec![big_canon(&mut rng, h2, w1, &[0]), big_canon(&mut rng, h2, w2, &[0, 1])],
+                ];
+                sink.case("hvgrid", grid_json(&rows), grid_case(&rows), &["large"]);
+                bump("large_hvgrid");
             }
         }
     }
